@@ -108,7 +108,39 @@ class Check:
         self.repo_copy = dst
         return dst
 
-    def build_driver(self, race=False, name="driver"):
+    def instrument_mutexes(self):
+        """Check-time instrumentation (DESIGN.md 6.2): in the scratch copy every sync.(RW)Mutex used by the
+        library is retyped to a wrapper that turns lock operations into scheduler gates. /repo is untouched.
+        Returns the number of files rewritten (0: the tree uses no sync mutex - only the uninstrumented gates apply)."""
+        repo = self.copy_repo()
+        zdir = os.path.join(repo, "zzvsync")
+        os.makedirs(zdir, exist_ok=True)
+        shutil.copy(os.path.join(HARNESS, "gates", "zzvsync.go.txt"), os.path.join(zdir, "zzvsync.go"))
+        n = 0
+        for root, dirs, files in os.walk(repo):
+            if root.startswith(zdir):
+                continue
+            for fn in files:
+                if not fn.endswith(".go") or fn.endswith("_test.go"):
+                    continue
+                path = os.path.join(root, fn)
+                src = open(path).read()
+                if not re.search(r"\bsync\.(RW)?Mutex\b", src):
+                    continue
+                new = re.sub(r"\bsync\.RWMutex\b", "zzvsync.RWMutex", src)
+                new = re.sub(r"\bsync\.Mutex\b", "zzvsync.Mutex", new)
+                imp = '\t"github.com/jub0bs/cors/zzvsync"\n'
+                if "import (" in new:
+                    new = new.replace("import (\n", "import (\n" + imp, 1)
+                else:
+                    new = re.sub(r'(?m)^import\s+"sync"\s*$', 'import (\n\t"sync"\n' + imp + ')', new, count=1)
+                new += "\nvar _ sync.Locker = (*sync.WaitGroup)(nil).Wait == nil && false // keeps the sync import used\n" if False else "\nvar _ sync.Locker // keeps the sync import used\n"
+                open(path, "w").write(new)
+                n += 1
+        self.cov["instrumented_files"] = n
+        return n
+
+    def build_driver(self, race=False, name="driver", tags=None):
         repo = self.copy_repo()
         hdir = self.path("harness")
         if not os.path.isdir(hdir):
@@ -121,13 +153,15 @@ class Check:
         cmd = ["go", "build", "-o", out]
         if race:
             cmd.append("-race")
+        if tags:
+            cmd += ["-tags", ",".join(tags)]
         cmd.append(".")
         env = dict(os.environ, **GOENV)
         env["GOCACHE"] = os.environ.get("GOCACHE", os.path.expanduser("~/.cache/go-build"))
         p = subprocess.run(cmd, cwd=hdir, env=env, capture_output=True, text=True)
         if p.returncode != 0:
             raise Infra("driver build failed:\n" + p.stdout + p.stderr)
-        if not race:
+        if not race and not tags:
             self.driver = out
         return out
 
